@@ -18,6 +18,6 @@ static inline void df_tile_set(void *p, int ts, long v)
     int32_t *a = (int32_t*)p; int i;
     for( i = 0; i < ts; i++ ) a[i] = (int32_t)v + i;
 }
-void df_start(const char *cls, int k, long a, long b, long c);
+void df_start(const char *cls, int k, long a, long b, long c, long d);
 void df_end(const char *cls, int k, long out);
 #endif
